@@ -74,6 +74,11 @@ def cmd_contract(name, kind):
         ],
         returns=f"evo_cmd('{kind}', wells, labware_position, volume, liquid_class, tips, arm, evo_sel_spec(n_rows, n_columns, wells))",
         policy={SELF: selection_summary, RSC: "contract", I2T: "contract"},
+        native={"imports": [f"from robotools.evotools.commands import {name}"],
+                "call": f"{name}(n_rows=n_rows, n_columns=n_columns, wells=wells, labware_position=labware_position, volume=volume, "
+                        "liquid_class=liquid_class, tips=tips, arm=arm, max_volume=max_volume)",
+                "clause_text": {"selection-defined": "True",
+                                "command": f"result == evo_cmd('{kind}', wells, labware_position, volume, liquid_class, tips, arm, evo_sel_spec(n_rows, n_columns, wells))"}},
     )
 
 
@@ -88,8 +93,8 @@ def install(world):
 
     register(world, Contract(func=RSC, serves=["C13"], scenarios=[Scenario("any rows x cols array", any_selection)], key=RSC,
                              raises=[("ValueError", "two_columns_selected(selection)")]))
-    register(world, cmd_contract("evo_aspirate", "Aspirate")).shards = 6
-    register(world, cmd_contract("evo_dispense", "Dispense")).shards = 6
+    register(world, cmd_contract("evo_aspirate", "Aspirate")).shards = 8
+    register(world, cmd_contract("evo_dispense", "Dispense")).shards = 8
 
 
 # ----------------------------------------------------------------------------- evo_wash and the worklist methods
@@ -131,6 +136,8 @@ def install(world):  # noqa: F811
         raises=[("ValueError", f"not {WASH_OK}")],
         returns=f"evo_wash_cmd({WASH_CALL})",
         policy={I2T: "contract"},
+        native={"imports": ["from robotools.evotools.commands import evo_wash"],
+                "call": "evo_wash(" + ", ".join(f"{a}={a}" for a in WASH_CALL.split(", ")) + ")"},
     ))
 
     def wl_wash(ex):
@@ -172,6 +179,7 @@ def install(world):  # noqa: F811
                 ("command-appended", f"same(records(self), records(old_self) + comment_records(label) + [evo_cmd('{kind}', wells, labware_position, volumes, liquid_class, tips, arm, "
                                      "evo_sel_spec(length(labware.row_ids), length(labware.column_ids), wells))])", ["C13"]),
                 ("tracking-agrees", f"same(labware._volumes, {op}(old_labware._volumes, contrib(labware, wells, volumes)))", ["C13"]),
+                ("no-oversized-step", "forall(0, length(volumes), lambda i: volumes[i] <= self.max_volume)", ["C03", "C13"]),
             ],
             exc_ensures=[("no-command-on-abort", "is_prefix(records(self), records(old_self) + comment_records(label))", ["C13", "C03"])],
             policy={LWR + lwm: "contract", CMD + name: "contract"},
